@@ -377,6 +377,29 @@ def r9_4(ctx):
     ctx.end()
 
 
+def r9_6(ctx):
+    """What simulate() derives from its arguments and the step loop then reads from `self` must be assigned on *every* path before
+    the loop -- an assignment skipped for some argument values (an empty list, a default) lets the previous run's value through."""
+    ctx.begin("R9.6", "option-derived attributes are assigned unconditionally before the step loop", floor=1)
+    f, loop = sim_loop(ctx)
+    body = f.body()
+    pre = body[: body.index(loop)]
+    I = mk_interp(ctx, inline=lambda call, callee, depth: False, auto_helpers=False)
+    outs = [(st, ex) for st, ex in I.run_block(f, pre, bind={"task_performed_mode": Const("multi-workers")}) if ex is None]
+    ctx.require(outs, "no normal path through simulate()'s prologue")
+    per_path = []
+    for st, ex in outs:
+        per_path.append({e.attr for e in flatten(st.trace) if isinstance(e, Store) and isinstance(e.recv, Obj) and e.recv.name == "self"})
+    some = set().union(*per_path)
+    every = set.intersection(*per_path) if per_path else set()
+    ctx.instance(construct(f, "prologue-stores"), cells=len(outs), sample={"always": sorted(every), "sometimes": sorted(some - every)})
+    for a in sorted(some - every):
+        ctx.violation(construct(f, f"conditional-option-store:{a}"), f.loc(),
+                      f"simulate() assigns self.{a} only on some paths before its loop (it depends on the argument values): when the assignment is skipped the attribute keeps the value of "
+                      f"an earlier run, and a later run behaves differently although it was called with the same arguments")
+    ctx.end()
+
+
 def r9_5(ctx):
     """'Running a simulation leaves no hidden state behind': a backward run must hand the dependency structure back
     unchanged, with no helper task or link left (shared with C17 R17.1-R17.3)."""
@@ -392,5 +415,6 @@ def run(ctx):
     r9_3(ctx)
     r9_4(ctx)
     r9_5(ctx)
+    r9_6(ctx)
     from .C14 import r14_2
     r14_2(ctx)  # derived state (component state) must be re-derived after the tasks were reset, or a second run starts from leftovers
